@@ -3,7 +3,7 @@ import sys
 sys.path.insert(0, '/verif/lib')
 import vlib
 
-TIERS = {'quick': dict(bounds='d2', horizon=6), 'thorough': dict(bounds='d3', horizon=8)}
+TIERS = {'quick': dict(bounds='d2', horizon=6), 'thorough': dict(bounds='d2+core3', horizon=8)}
 
 
 def warm():
